@@ -20,6 +20,7 @@ type qOutcome struct {
 	Foreign []string
 	NonTriv bool
 	Steps   int
+	Skipped string
 }
 
 func propIn(props, id string) bool {
